@@ -303,6 +303,10 @@ def rule_no_struct_copies_into_caches(ctx, rule='R17.7'):
 
 
 def run(ctx):
+    serial.rule_scratch_conditions(ctx, 'R05.11')     # scratch buffers carry nothing from one force evaluation to the next
+    serial.rule_scratch_reset(ctx, 'R05.10')
+    from . import protocol
+    protocol.rule_diff_truth_table(ctx, 'R17.10')        # NaN on one side only is a difference
     from . import pyrules
     pyrules.rule_selector_truthiness(ctx, 'R06.11', ('Simulation', 'Simulationarchive'))   # a simulation equals its own restored snapshot, snapshot 0 included
     serial.rule_zeroed_particle_arrays(ctx)     # R05.12: persisted particle arrays contain no bytes nobody computed
